@@ -148,6 +148,11 @@ func c06NewObject(p *prog) {
 			os := p.objects()
 			for i := 0; i < k && len(os) > 0; i++ {
 				key := c06Key(r)
+				if r.Chance(1, 4) {
+					m[key] = nil // a nil Object entry is stored as nil
+					n.M[key] = model.Nil()
+					continue
+				}
 				x := os[r.Intn(len(os))]
 				m[key] = x.Object()
 				n.M[key] = model.Ref(x)
@@ -234,6 +239,15 @@ func c06Program(p *prog, steps int) {
 				keys[i] = pickKey()
 				if i > 0 && r.Chance(1, 4) {
 					keys[i] = keys[0]
+				}
+				if cur, ok := o.M[keys[i]]; ok && cur.Ref != nil && r.Chance(1, 3) {
+					// a native Go map / slice assigned over a field that holds a container of the matching kind: the slot is
+					// rebound to a fresh container, the old container (possibly shared) is left alone
+					t := spec.GenTree(r, spec.Opts{MaxDepth: 2, MaxWidth: 3, SafeKeys: true, Root: cur.K})
+					vals[i] = h.ModelFromSpec(t)
+					args = append(args, keys[i], drive.Native(t))
+					p.c.Count("native_over_container_sets")
+					continue
 				}
 				vals[i] = p.anyVal(o, 2)
 				args = append(args, keys[i], h.Arg(vals[i]))
